@@ -332,7 +332,7 @@ def redis_promptness(c):
             sig = "kvwait: %s waiter with a context deadline was not woken promptly with ErrNotExist when the record ran out (returned %s)" % (
                 ev.get("backend"), ev.get("res"))
     elif ev.get("late_ms", 0) > 1000:
-        sig = "kvwait: Redis waiter idle for %d ms noticed the change only after more than 1 s (documented poll cap 100 ms)" % ev.get("idle_ms", 0)
+        sig = "kvwait: %s waiter idle for %d ms noticed the %s only after more than 1 s (documented poll cap 100 ms)" % (ev.get("backend", "redis"), ev.get("idle_ms", 0), ev.get("change"))
     else:
-        sig = "kvwait: Redis waiter returned %s after a %s" % (ev.get("res"), ev.get("change"))
+        sig = "kvwait: %s waiter returned %s after a %s" % (ev.get("backend", "redis"), ev.get("res"), ev.get("change"))
     c.report_failure(sig, {"rejected_at_line": at, "history": lines[:at], "trace": {"comp": "kv", "module": "PromptTrace", "constants": {"Bound": 1000}}})
